@@ -93,6 +93,9 @@ fn main() {
         cx.program(&mut prng, i, thorough);
     }
 
+    // 1b. match/switch arms at every indentation relative to their header, with trivia before them
+    cx.arm_indent_stream(&mut rng, if thorough { 3000 } else { 400 });
+
     // 2. repository sources: cursor traces, trivia invariance, cut-off sweep
     cx.repo_sources(&mut rng, thorough);
 
